@@ -24,13 +24,24 @@ def gen_script(rng, ty):
             others = [x for x in objs if x != k]
             how = rng.choice(['mc', 'ma', 'sw'])
             if how == 'mc' and empty:
-                j = rng.choice(empty); lines.append('mc %d %d' % (k, j)); st[j] = 'L'; st[k] = 'M'; lines.append('rel %d' % j)
+                j = rng.choice(empty); lines.append('mc %d %d' % (k, j)); st[j] = 'L'; st[k] = 'M'; lines.append('rel %d %d' % (j, rng.randint(1, 10 ** 6)))
             elif how == 'ma' and others:
-                j = rng.choice(others); lines.append('ma %d %d' % (k, j)); st[j] = 'L'; st[k] = 'M'; lines.append('rel %d' % j)
+                j = rng.choice(others); lines.append('ma %d %d' % (k, j)); st[j] = 'L'; st[k] = 'M'; lines.append('rel %d %d' % (j, rng.randint(1, 10 ** 6)))
             elif others:
-                j = rng.choice(others); lines.append('sw %d %d' % (k, j)); st[k], st[j] = st[j], st[k]; lines.append('rel %d' % j)
+                j = rng.choice(others); lines.append('sw %d %d' % (k, j)); st[k], st[j] = st[j], st[k]; lines.append('rel %d %d' % (j, rng.randint(1, 10 ** 6)))
+        elif r < 0.50 and live:
+            lines.append('rel %d %d' % (rng.choice(live), rng.choice([0, rng.randint(1, 10 ** 6)])))
         elif r < 0.55 and live:
-            lines.append('rel %d' % rng.choice(live))
+            # leave gaps: some nodes free, some live, then move at once and release the rest in a shuffled order through the new owner
+            k = rng.choice(live); lines.append('use %d %d' % (k, rng.choice([6, 12, 20]))); lines.append('relp %d %d %d' % (k, rng.randint(0, 2), 3))
+            others = [x for x in objs if x != k]
+            how = rng.choice(['mc', 'mc', 'ma', 'sw'])
+            if how == 'mc' and empty:
+                j = rng.choice(empty); lines.append('mc %d %d' % (k, j)); st[j] = 'L'; st[k] = 'M'; lines.append('rel %d %d' % (j, rng.randint(1, 10 ** 6)))
+            elif how == 'ma' and others:
+                j = rng.choice(others); lines.append('ma %d %d' % (k, j)); st[j] = 'L'; st[k] = 'M'; lines.append('rel %d %d' % (j, rng.randint(1, 10 ** 6)))
+            elif others:
+                j = rng.choice(others); lines.append('sw %d %d' % (k, j)); st[k], st[j] = st[j], st[k]; lines.append('rel %d %d' % (j, rng.randint(1, 10 ** 6)))
         elif r < 0.68 and objs and empty:
             i = rng.choice(objs); j = rng.choice(empty); lines.append('mc %d %d' % (i, j)); st[j] = st[i]; st[i] = 'M'
         elif r < 0.84 and len(objs) >= 2:
@@ -46,7 +57,7 @@ def gen_script(rng, ty):
 def oracle(log):
     """C12 on the implementation's log alone: contents intact, upstream balanced, nothing returned twice, moves touch no block"""
     msgs = []
-    held = set(); returned = set()
+    held = set(); returned = set(); prev_figs = {}
     for ln in log.split('\n'):
         if ln.startswith('corrupt'):
             msgs.append('memory handed out before a move was modified or is no longer where it was: ' + ln)
@@ -77,6 +88,21 @@ def oracle(log):
                 msgs.append('block %d returned upstream but never acquired (at "%s")' % (b, head))
             held.discard(b); returned.add(b)
         op = head.split()[0] if head else ''
+        figs = {}
+        for tok in parts[2].split():
+            q = tok.split(':')
+            if len(q) == 3 and q[0].isdigit():
+                figs[int(q[0])] = (q[1], int(q[2]))
+        hp = head.split()
+        if op in ('mc', 'ma', 'sw') and len(hp) >= 3 and '=' in hp and hp[hp.index('=') + 1] in ('moved', 'assigned', 'swapped') and prev_figs:
+            i, j = int(hp[1]), int(hp[2])
+            if op == 'sw':
+                if figs.get(i) != prev_figs.get(j) or figs.get(j) != prev_figs.get(i):
+                    msgs.append('swap did not exchange the memory completely: capacity figures %s / %s before, %s / %s after "%s"' % (prev_figs.get(i), prev_figs.get(j), figs.get(i), figs.get(j), head))
+            elif prev_figs.get(i, ('E', 0))[0] == 'L' and figs.get(j) != prev_figs.get(i):
+                msgs.append('the capacity figure did not travel with the memory: source had %s, target has %s after "%s"' % (prev_figs.get(i), figs.get(j), head))
+        if figs:
+            prev_figs = figs
         if op in ('mc', 'sw') and (ups or downs):
             msgs.append('"%s" touched the upstream source: %s' % (head, parts[1].strip()))
         if op == 'end':
